@@ -1,5 +1,5 @@
 (* allow-axioms:  *)
-From RRE Require Import Base.Sx Base.Float Base.Num Model.ExprShape Model.Forward Model.ForwardSpec Model.Backward Proofs.BackwardProofs.
+From RRE Require Import Base.Sx Base.Float Base.Num Model.ExprShape Model.Forward Model.ForwardSpec Model.Backward Proofs.BackwardProofs Proofs.BackwardClosureProofs.
 Open Scope Z_scope.
 From RRE Require Import Properties.C09.
 Check (C09_depth_first_sound : forall rules max_depth goal f f',
@@ -8,3 +8,8 @@ Check (C09_search_sound : forall rules max_depth fuel goal cands depth f f',
   search rules max_depth fuel goal cands depth f = (true, f') -> goal_holds f' goal = true).
 Check (C09_iterative_sound : forall rules max_depth goal f f',
   ids rules max_depth goal f = (true, f') -> goal_holds f' goal = true).
+Check (C09_result_within_closure : forall rules max_depth D, horn rules -> closedD rules D ->
+  forall goal f b f', covers D f -> dfs rules max_depth goal f = (b, f') -> covers D f').
+Check (C09_proven_goal_in_closure : forall rules max_depth D, horn rules -> closedD rules D ->
+  forall goal f f', covers D f -> dfs rules max_depth goal f = (true, f') ->
+    (exists v, In (b_field goal, v) D /\ goal_sat (Some v) goal = true) \/ goal_sat None goal = true).
